@@ -6,6 +6,22 @@ From CMinx Require Import Base.Str Model.Writer Model.Path Model.Naming Model.Pi
 From CMinx Require Import Proofs.WalkFacts.
 Import ListNotations.
 
+(* ---- spec ---- *)
+
+(* the same settings with / without an output directory *)
+Definition set_out (st : wsettings) (b : bool) : wsettings :=
+  {| ws_out := b; ws_recursive := ws_recursive st; ws_prefix := ws_prefix st;
+     ws_auto_exclude := ws_auto_exclude st; ws_sep := ws_sep st;
+     ws_ext_titles := ws_ext_titles st; ws_ext_modules := ws_ext_modules st |}.
+
+(* the last component of an output path is index.rst *)
+Definition ends_in_index (p : list str) : bool := str_eqb (last p []) index_rst.
+
+(* the non-index pages of a run, in order, each followed by a newline *)
+Definition pages_as_printed (acts : list action) : list str :=
+  map (fun c => c ++ [nl])
+      (map snd (filter (fun pc => negb (ends_in_index (fst pc))) (writes acts))).
+
 Section WalkFacts2.
   Variable st : wsettings.
   Variable hdrs : list str.
@@ -545,3 +561,548 @@ Section WalkFacts2.
     apply expected_paths_nodup. exact Ht.
   Qed.
 End WalkFacts2.
+
+(* ================================================================== *)
+(* W13: stdout carries exactly the non-index pages of the -o run        *)
+(* ================================================================== *)
+
+Section StdoutPages.
+  Variable st : wsettings.
+  Variable hdrs : list str.
+  Variable docfn : str -> str -> list N -> outcome.
+  Variable excl : list str -> bool -> bool.
+
+  Local Notation so := (set_out st true).
+  Local Notation ss := (set_out st false).
+
+  Lemma pages_as_printed_app : forall a b,
+    pages_as_printed (a ++ b) = pages_as_printed a ++ pages_as_printed b.
+  Proof.
+    intros a b. unfold pages_as_printed. rewrite writes_app, filter_app, !map_app. reflexivity.
+  Qed.
+
+  Lemma flat_map_corr : forall {A} (g1 g2 : A -> list action) l,
+    (forall x, In x l -> prints (g1 x) = pages_as_printed (g2 x)) ->
+    prints (flat_map g1 l) = pages_as_printed (flat_map g2 l).
+  Proof.
+    intros A g1 g2 l H. induction l as [|x r IH]; [reflexivity|].
+    cbn [flat_map]. rewrite prints_app, pages_as_printed_app. f_equal.
+    - apply H. left. reflexivity.
+    - apply IH. intros y Hy. apply H. right. exact Hy.
+  Qed.
+
+  Lemma pages_as_printed_index : forall rel x,
+    pages_as_printed [AMkDirs rel; AWrite (rel ++ [index_rst]) x] = [].
+  Proof.
+    intros rel x. unfold pages_as_printed, writes. cbn [flat_map app filter fst].
+    unfold ends_in_index. rewrite last_last.
+    change (str_eqb index_rst index_rst) with true. reflexivity.
+  Qed.
+
+  Lemma pages_as_printed_page : forall rel name text,
+    str_eqb (stem name) index_stem = false ->
+    pages_as_printed [AMkDirs []; AWrite (rel ++ [rst_name name]) text] = [text ++ [nl]].
+  Proof.
+    intros rel name text H. unfold pages_as_printed, writes. cbn [flat_map app filter fst].
+    unfold ends_in_index. rewrite last_last.
+    destruct (str_eqb (rst_name name) index_rst) eqn:E.
+    - apply str_eqb_eq in E. apply rst_name_index in E. apply str_eqb_eq in E. congruence.
+    - reflexivity.
+  Qed.
+
+  Lemma doc_actions_corr : all_ok docfn -> forall pre tn out name content,
+    str_eqb (stem name) index_stem = false ->
+    prints (doc_actions ss docfn pre tn out name content)
+    = pages_as_printed (doc_actions so docfn pre tn out name content).
+  Proof.
+    intros Hok pre tn out name content Hn.
+    destruct (doc_actions_ok ss docfn Hok pre tn out name content) as [t1 [D1 E1]].
+    destruct (doc_actions_ok so docfn Hok pre tn out name content) as [t2 [D2 E2]].
+    rewrite E1, E2.
+    assert (Et : t1 = t2).
+    { change (ws_sep ss) with (ws_sep st) in D1. change (ws_ext_titles ss) with (ws_ext_titles st) in D1.
+      change (ws_ext_modules ss) with (ws_ext_modules st) in D1.
+      change (ws_sep so) with (ws_sep st) in D2. change (ws_ext_titles so) with (ws_ext_titles st) in D2.
+      change (ws_ext_modules so) with (ws_ext_modules st) in D2.
+      rewrite D1 in D2. inversion D2. reflexivity. }
+    subst t2. change (ws_out ss) with false. change (ws_out so) with true. cbv iota.
+    rewrite pages_as_printed_page by exact Hn. reflexivity.
+  Qed.
+
+  Lemma stem_not_index : forall ch fn bytes,
+    mem_str index_stem (cmake_stems ch) = false -> In (F fn bytes) ch -> is_cmake_name fn = true ->
+    str_eqb (stem fn) index_stem = false.
+  Proof.
+    intros ch fn bytes Hm Hin Hc. destruct (str_eqb (stem fn) index_stem) eqn:E; [|reflexivity].
+    apply str_eqb_eq in E.
+    assert (H : mem_str index_stem (cmake_stems ch) = true).
+    { apply mem_str_in. rewrite <- E. eapply in_cmake_stems; eassumption. }
+    congruence.
+  Qed.
+
+  Lemma visit_dir_corr : all_ok docfn -> forall prefix rel ch,
+    mem_str index_stem (cmake_stems ch) = false ->
+    prints (snd (visit_dir ss hdrs docfn excl prefix rel ch))
+    = pages_as_printed (snd (visit_dir so hdrs docfn excl prefix rel ch)).
+  Proof.
+    intros Hok prefix rel ch Hm. rewrite !visit_dir_eq.
+    change (dir_processed ss excl rel ch) with (dir_processed st excl rel ch).
+    change (dir_processed so excl rel ch) with (dir_processed st excl rel ch).
+    destruct (dir_processed st excl rel ch); [|reflexivity].
+    cbn [snd]. change (ws_out ss) with false. change (ws_out so) with true. cbv iota.
+    rewrite pages_as_printed_app, pages_as_printed_index. cbn [app].
+    apply flat_map_corr. intros f Hf. apply in_sorted_files in Hf. destruct Hf as [Hf _].
+    unfold page_acts. destruct (is_cmake_name (fst f)) eqn:Ec; [|reflexivity].
+    apply doc_actions_corr; [exact Hok|]. eapply stem_not_index; eassumption.
+  Qed.
+
+  Lemma sub_acts_corr : all_ok docfn -> forall prefix n, node_no_index n = true -> forall rel,
+    prints (sub_acts ss hdrs docfn excl prefix rel n)
+    = pages_as_printed (sub_acts so hdrs docfn excl prefix rel n).
+  Proof.
+    intros Hok prefix n. induction n as [nm c|nm ch IH] using node_ind2; intros Hn rel; [reflexivity|].
+    rewrite !sub_acts_D.
+    change (keep_dir ss excl rel (D nm ch)) with (keep_dir st excl rel (D nm ch)).
+    change (keep_dir so excl rel (D nm ch)) with (keep_dir st excl rel (D nm ch)).
+    destruct (keep_dir st excl rel (D nm ch)); [|reflexivity].
+    cbn [node_no_index] in Hn. apply andb_true_iff in Hn. destruct Hn as [Hm Hf].
+    apply negb_true_iff in Hm.
+    rewrite prints_app, pages_as_printed_app. f_equal; [apply visit_dir_corr; assumption|].
+    apply flat_map_corr. intros c Hc. rewrite Forall_forall in IH. rewrite forallb_forall in Hf.
+    apply IH; [exact Hc|apply Hf; exact Hc].
+  Qed.
+
+  Theorem stdout_equals_pages_dir : all_ok docfn -> forall base top,
+    no_index_page top = true ->
+    prints (document ss hdrs docfn excl base (KDir top))
+    = pages_as_printed (document so hdrs docfn excl base (KDir top)).
+  Proof.
+    intros Hok base top Hn. rewrite !document_dir.
+    destruct (excl [] true); [reflexivity|].
+    rewrite !cut_at_abort_id by (intros a Ha; eapply raw_no_stop; eassumption).
+    unfold raw_acts. change (run_prefix ss base) with (run_prefix st base).
+    change (run_prefix so base) with (run_prefix st base).
+    change (ws_recursive ss) with (ws_recursive st). change (ws_recursive so) with (ws_recursive st).
+    unfold no_index_page in Hn. apply andb_true_iff in Hn. destruct Hn as [Hm Hf].
+    apply negb_true_iff in Hm.
+    rewrite prints_app, pages_as_printed_app. f_equal; [apply visit_dir_corr; assumption|].
+    destruct (ws_recursive st); [|reflexivity].
+    apply flat_map_corr. intros c Hc. rewrite forallb_forall in Hf.
+    apply sub_acts_corr; [exact Hok|apply Hf; exact Hc].
+  Qed.
+
+  Theorem stdout_equals_pages_file : all_ok docfn -> forall base content,
+    str_eqb (stem base) index_stem = false ->
+    prints (document ss hdrs docfn excl base (KFile content))
+    = pages_as_printed (document so hdrs docfn excl base (KFile content)).
+  Proof.
+    intros Hok base content Hn. unfold document.
+    destruct (excl [] false); [reflexivity|].
+    change (ws_out ss) with false. change (ws_out so) with true. cbv iota.
+    change (ws_prefix ss) with (ws_prefix st). change (ws_prefix so) with (ws_prefix st).
+    assert (H := doc_actions_corr Hok (ws_prefix st) base [] base content Hn).
+    destruct (doc_actions_ok ss docfn Hok (ws_prefix st) base [] base content) as [t1 [_ E1]].
+    destruct (doc_actions_ok so docfn Hok (ws_prefix st) base [] base content) as [t2 [_ E2]].
+    rewrite E1, E2 in H |- *. change (ws_out ss) with false in *. change (ws_out so) with true in *.
+    cbv iota in H |- *. cbn [app cut_at_abort]. exact H.
+  Qed.
+End StdoutPages.
+
+(* ================================================================== *)
+(* concrete instances: the hypotheses are satisfiable, the conclusions  *)
+(* are not trivially true                                               *)
+(* ================================================================== *)
+
+Definition docfn_ok (title modname : str) (bytes : list N) : outcome :=
+  OOk (title ++ s"|" ++ modname ++ s"|" ++ bytes).
+(* a documenter that fails on files starting with an exclamation mark *)
+Definition docfn_ex (title modname : str) (bytes : list N) : outcome :=
+  if startswith (s"!") bytes then OParseErr else docfn_ok title modname bytes.
+Definition excl_ex (rel : list str) (isdir : bool) : bool :=
+  if isdir then str_eqb (last rel []) (s"skipme") else str_eqb (last rel []) (s"secret.cmake").
+Definition excl_none (rel : list str) (isdir : bool) : bool := false.
+Definition excl_all (rel : list str) (isdir : bool) : bool := true.
+Definition st_ex : wsettings :=
+  {| ws_out := true; ws_recursive := true; ws_prefix := None; ws_auto_exclude := true;
+     ws_sep := s"."; ws_ext_titles := false; ws_ext_modules := true |}.
+Definition hdrs_ex : list str := [s"#"; s"*"; s"="; s"-"].
+Definition deep_ex : list node := [F (s"e.cmake") (s"E"); F (s"d.CMAKE") (s"D")].
+Definition sub_ex : list node :=
+  [F (s"c.cmake") (s"C"); F (s"secret.cmake") (s"S"); F (s"README") (s"R"); D (s"deep") deep_ex].
+Definition top_ex : list node :=
+  [ F (s"b.cmake") (s"B"); F (s"a.cmake") (s"A"); F (s"notes.txt") (s"N");
+    D (s"zeta") [F (s"z.cmake") (s"Z")];
+    D (s"sub") sub_ex;
+    D (s"skipme") [F (s"x.cmake") (s"X")];
+    D (s"empty") [F (s"readme.txt") (s"T")] ].
+(* the same tree listed in another order, at three levels *)
+Definition top_ex' : list node :=
+  [ F (s"a.cmake") (s"A"); F (s"b.cmake") (s"B"); F (s"notes.txt") (s"N");
+    D (s"sub") [F (s"secret.cmake") (s"S"); F (s"c.cmake") (s"C"); F (s"README") (s"R");
+                D (s"deep") [F (s"d.CMAKE") (s"D"); F (s"e.cmake") (s"E")]];
+    D (s"zeta") [F (s"z.cmake") (s"Z")];
+    D (s"skipme") [F (s"x.cmake") (s"X")];
+    D (s"empty") [F (s"readme.txt") (s"T")] ].
+Definition run_ex : list action := document st_ex hdrs_ex docfn_ok excl_ex (s"proj") (KDir top_ex).
+Definition expect_ex : list (list str) :=
+  [ [s"index.rst"]; [s"a.rst"]; [s"b.rst"];
+    [s"zeta"; s"index.rst"]; [s"zeta"; s"z.rst"];
+    [s"sub"; s"index.rst"]; [s"sub"; s"c.rst"];
+    [s"sub"; s"deep"; s"index.rst"]; [s"sub"; s"deep"; s"d.rst"]; [s"sub"; s"deep"; s"e.rst"] ].
+
+Lemma all_ok_docfn_ok : all_ok docfn_ok.
+Proof. intros t m c. eexists. reflexivity. Qed.
+
+Example ex_hypotheses :
+  ws_out st_ex = true /\ excl_ex [] true = false /\ tree_ok top_ex = true /\ names_ok top_ex = true
+  /\ no_index_page top_ex = true /\ dir_processed st_ex excl_ex [] top_ex = true.
+Proof. vm_compute. repeat split. Qed.
+
+Example ex_write_paths : write_paths run_ex = expect_ex.
+Proof. vm_compute. reflexivity. Qed.
+
+(* W1 on the example; the expected paths come in tree order, the written ones in walk order *)
+Example writes_exact_ex :
+  Permutation (write_paths run_ex) (expected_paths st_ex excl_ex [] top_ex).
+Proof. apply writes_exact; [reflexivity|exact all_ok_docfn_ok|reflexivity]. Qed.
+Example writes_exact_ex_order : write_paths run_ex <> expected_paths st_ex excl_ex [] top_ex.
+Proof. intros H. vm_compute in H. discriminate H. Qed.
+
+Example write_paths_nodup_ex : NoDup (write_paths run_ex).
+Proof. apply write_paths_nodup; [reflexivity|exact all_ok_docfn_ok|reflexivity|reflexivity]. Qed.
+
+(* W2 / W3 on the example *)
+Example ex_writes_5_6 :
+  nth_error (writes run_ex) 6 = Some ([s"sub"; s"c.rst"], s"proj.sub/c|proj.sub/c.cmake|C")
+  /\ nth_error (writes run_ex) 5
+     = Some ([s"sub"; s"index.rst"], index_of st_ex hdrs_ex excl_ex (s"proj") [s"sub"] sub_ex).
+Proof. vm_compute. split; reflexivity. Qed.
+
+Example page_content_ex :
+  exists rel ch, visited st_ex excl_ex [] top_ex rel ch
+                 /\ is_page_of st_ex docfn_ok excl_ex (s"proj") rel ch [s"sub"; s"c.rst"]
+                               (s"proj.sub/c|proj.sub/c.cmake|C").
+Proof.
+  apply (page_content st_ex hdrs_ex docfn_ok excl_ex (s"proj") top_ex).
+  - apply in_writes. eapply nth_error_In. exact (proj1 ex_writes_5_6).
+  - intros rel E. apply (f_equal (fun l => last l [])) in E. cbv beta in E. rewrite last_last in E.
+    vm_compute in E. discriminate E.
+Qed.
+
+Example index_content_ex :
+  exists ch, visited st_ex excl_ex [] top_ex [s"sub"] ch
+             /\ dir_processed st_ex excl_ex [s"sub"] ch = true
+             /\ index_of st_ex hdrs_ex excl_ex (s"proj") [s"sub"] sub_ex
+                = index_of st_ex hdrs_ex excl_ex (run_prefix st_ex (s"proj")) [s"sub"] ch.
+Proof.
+  apply (index_content st_ex hdrs_ex docfn_ok excl_ex (s"proj") top_ex [s"sub"]).
+  - reflexivity.
+  - apply in_writes. eapply nth_error_In. exact (proj2 ex_writes_5_6).
+Qed.
+
+(* C14 on the example *)
+Example toctree_entries_ex :
+  toctree_entries st_ex excl_ex [] top_ex = [s"sub/index.rst"; s"zeta/index.rst"; s"a"; s"b"].
+Proof. vm_compute. reflexivity. Qed.
+
+Example toctree_nodup_ex : NoDup (toctree_entries st_ex excl_ex [] top_ex).
+Proof. apply (toctree_nodup st_ex excl_ex top_ex); [reflexivity|reflexivity|constructor]. Qed.
+
+Example all_written_reachable_ex : forall p, In p (write_paths run_ex) ->
+  reachable st_ex hdrs_ex excl_ex (s"proj") run_ex p.
+Proof.
+  apply (all_written_reachable st_ex hdrs_ex docfn_ok excl_ex);
+    [exact all_ok_docfn_ok|reflexivity|reflexivity|reflexivity].
+Qed.
+
+Example toctree_closed_ex :
+  In [s"sub"; s"index.rst"] (write_paths run_ex) /\ In [s"a.rst"] (write_paths run_ex).
+Proof.
+  split.
+  - apply (toctree_closed_dirs st_ex hdrs_ex docfn_ok excl_ex all_ok_docfn_ok eq_refl eq_refl
+             (s"proj") top_ex [] top_ex (s"sub")); [constructor|].
+    vm_compute. left. reflexivity.
+  - apply (toctree_closed_files st_ex hdrs_ex docfn_ok excl_ex all_ok_docfn_ok eq_refl eq_refl
+             (s"proj") top_ex [] top_ex (s"a.cmake")); [constructor|reflexivity|].
+    vm_compute. left. reflexivity.
+Qed.
+
+(* C15 on the example *)
+Example excluded_input_no_output_ex :
+  document st_ex hdrs_ex docfn_ok excl_all (s"proj") (KDir top_ex) = []
+  /\ document st_ex hdrs_ex docfn_ok excl_all (s"a.cmake") (KFile (s"A")) = [].
+Proof. split; apply excluded_input_no_output; reflexivity. Qed.
+
+Example excluded_dir_not_descended_ex :
+  (forall p q, In p (write_paths run_ex) -> q <> [] -> p <> [] ++ s"skipme" :: q)
+  /\ (forall p q, In p (mkdirs run_ex) -> p <> [] ++ s"skipme" :: q).
+Proof. apply excluded_dir_not_descended. reflexivity. Qed.
+
+Example excluded_file_not_written_ex : ~ In ([s"sub"] ++ [rst_name (s"secret.cmake")]) (write_paths run_ex).
+Proof.
+  apply (excluded_file_not_written st_ex hdrs_ex docfn_ok excl_ex (s"proj") top_ex [s"sub"] sub_ex
+           (s"secret.cmake") (s"S")); try reflexivity.
+  - eapply (v_down st_ex excl_ex [] top_ex (s"sub") sub_ex); [reflexivity| |reflexivity|constructor].
+    vm_compute. tauto.
+  - vm_compute. tauto.
+Qed.
+
+Lemma tperm_refl : forall n, tperm n n.
+Proof.
+  intros n. induction n as [nm c|nm ch IH] using node_ind2; [constructor|].
+  constructor. induction IH as [|x r Hx Hr IHr]; constructor; assumption.
+Qed.
+
+Lemma tperm_list_refl : forall l, tperm_list l l.
+Proof. intros l. induction l as [|x r IH]; constructor; [apply tperm_refl|exact IH]. Qed.
+
+Example tperm_ex : tperm_list top_ex top_ex'.
+Proof.
+  unfold top_ex, top_ex'.
+  eapply tpl_trans; [apply tpl_swap|].
+  apply tpl_skip; [apply tperm_refl|]. apply tpl_skip; [apply tperm_refl|].
+  apply tpl_skip; [apply tperm_refl|].
+  eapply tpl_trans; [apply tpl_swap|].
+  apply tpl_skip; [|apply tperm_list_refl].
+  apply tp_D. unfold sub_ex.
+  eapply tpl_trans; [apply tpl_swap|].
+  apply tpl_skip; [apply tperm_refl|]. apply tpl_skip; [apply tperm_refl|].
+  apply tpl_skip; [apply tperm_refl|]. apply tpl_skip; [|apply tpl_nil].
+  apply tp_D. apply tpl_swap.
+Qed.
+
+Example listing_order_irrelevant_ex :
+  Permutation (writes run_ex) (writes (document st_ex hdrs_ex docfn_ok excl_ex (s"proj") (KDir top_ex')))
+  /\ writes run_ex <> writes (document st_ex hdrs_ex docfn_ok excl_ex (s"proj") (KDir top_ex')).
+Proof.
+  split.
+  - apply listing_order_irrelevant; [exact tperm_ex|reflexivity|exact all_ok_docfn_ok].
+  - intros H. apply (f_equal (map fst)) in H. vm_compute in H. discriminate H.
+Qed.
+
+(* C18 on the example *)
+Example no_output_dir_no_writes_ex :
+  write_paths (document (set_out st_ex false) hdrs_ex docfn_ok excl_ex (s"proj") (KDir top_ex)) = []
+  /\ mkdirs (document (set_out st_ex false) hdrs_ex docfn_ok excl_ex (s"proj") (KDir top_ex)) = []
+  /\ length (prints (document (set_out st_ex false) hdrs_ex docfn_ok excl_ex (s"proj") (KDir top_ex))) = 6.
+Proof.
+  destruct (no_output_dir_no_writes (set_out st_ex false) hdrs_ex docfn_ok excl_ex eq_refl
+              (s"proj") (KDir top_ex)) as [H1 H2].
+  split; [exact H1|]. split; [exact H2|]. vm_compute. reflexivity.
+Qed.
+
+Example writes_stay_below_ex : forall p, In p (write_paths run_ex ++ mkdirs run_ex) ->
+  forall c, In c p -> name_ok c = true.
+Proof. apply writes_stay_below. reflexivity. Qed.
+
+Example stdout_equals_pages_ex :
+  prints (document (set_out st_ex false) hdrs_ex docfn_ok excl_ex (s"proj") (KDir top_ex))
+  = pages_as_printed (document (set_out st_ex true) hdrs_ex docfn_ok excl_ex (s"proj") (KDir top_ex))
+  /\ length (pages_as_printed run_ex) = 6
+  /\ prints (document (set_out st_ex false) hdrs_ex docfn_ok excl_ex (s"a.cmake") (KFile (s"A")))
+     = [s"a|a.cmake|A" ++ [nl]].
+Proof.
+  split; [apply stdout_equals_pages_dir; [exact all_ok_docfn_ok|reflexivity]|].
+  split; vm_compute; reflexivity.
+Qed.
+
+Example files_sorted_within_dir_ex :
+  toctree_files excl_ex [s"sub"; s"deep"] deep_ex = [s"d.CMAKE"; s"e.cmake"]
+  /\ map node_name deep_ex = [s"e.cmake"; s"d.CMAKE"].
+Proof. vm_compute. split; reflexivity. Qed.
+
+(* C06 link on an example: the second file (in sorted order) fails *)
+Definition top_fail : list node :=
+  [F (s"c.cmake") (s"C"); F (s"b.cmake") (s"!bad"); F (s"a.cmake") (s"A")].
+Example failed_file_aborts_ex :
+  write_paths (document st_ex hdrs_ex docfn_ex excl_ex (s"proj") (KDir top_fail))
+  = [[s"index.rst"]; [s"a.rst"]]
+  /\ last (document st_ex hdrs_ex docfn_ex excl_ex (s"proj") (KDir top_fail)) AExit255 = AAbort OParseErr
+  /\ document st_ex hdrs_ex docfn_ex excl_ex (s"b.cmake") (KFile (s"!bad"))
+     = [AMkDirs []; AAbort OParseErr].
+Proof. vm_compute. repeat split. Qed.
+
+Example failed_file_aborts_run_ex :
+  document st_ex hdrs_ex docfn_ex excl_ex (s"b.cmake") (KFile (s"!bad"))
+  = (if ws_out st_ex then [AMkDirs []] else []) ++ [AAbort OParseErr]
+  /\ write_paths (document st_ex hdrs_ex docfn_ex excl_ex (s"b.cmake") (KFile (s"!bad"))) = []
+  /\ prints (document st_ex hdrs_ex docfn_ex excl_ex (s"b.cmake") (KFile (s"!bad"))) = [].
+Proof.
+  eapply failed_file_aborts_run; [reflexivity|reflexivity|reflexivity|discriminate].
+Qed.
+
+(* ================================================================== *)
+(* refuted statements and witnesses for the side conditions             *)
+(* ================================================================== *)
+
+Lemma not_nodup_witness : forall {A} (l : list A) x i j,
+  i < j -> nth_error l i = Some x -> nth_error l j = Some x -> ~ NoDup l.
+Proof.
+  intros A l x i j Hij Hi Hj Hnd. rewrite NoDup_nth_error in Hnd.
+  assert (Hlt : i < length l) by (apply nth_error_Some; congruence).
+  assert (E : i = j) by (apply Hnd; [exact Hlt|congruence]). lia.
+Qed.
+
+(* (a) a file index.cmake: its page and the directory index are both written to index.rst.
+   Hence: W1b needs the no-index condition of tree_ok, W3 needs no_index_page, W13 needs
+   no_index_page. *)
+Definition top_index : list node := [F (s"index.cmake") (s"I"); F (s"a.cmake") (s"A")].
+Definition run_index : list action :=
+  document st_ex hdrs_ex docfn_ok excl_none (s"proj") (KDir top_index).
+
+Example index_cmake_collides :
+  tree_ok top_index = false /\ no_index_page top_index = false
+  /\ write_paths run_index = [[s"index.rst"]; [s"a.rst"]; [s"index.rst"]]
+  /\ nth_error (writes run_index) 2 = Some ([s"index.rst"], s"proj.index|proj.index.cmake|I")
+  /\ ~ NoDup (write_paths run_index).
+Proof.
+  split; [reflexivity|]. split; [reflexivity|]. split; [vm_compute; reflexivity|].
+  split; [vm_compute; reflexivity|].
+  apply (not_nodup_witness _ [s"index.rst"] 0 2); [lia|vm_compute; reflexivity|vm_compute; reflexivity].
+Qed.
+
+Example index_content_refuted :
+  ~ (forall base top rel text,
+       In (AWrite (rel ++ [index_rst]) text)
+          (document st_ex hdrs_ex docfn_ok excl_none base (KDir top)) ->
+       exists ch, visited st_ex excl_none [] top rel ch
+                  /\ dir_processed st_ex excl_none rel ch = true
+                  /\ text = index_of st_ex hdrs_ex excl_none (run_prefix st_ex base) rel ch).
+Proof.
+  intros H.
+  destruct (H (s"proj") top_index [] (s"proj.index|proj.index.cmake|I")) as [ch [Hv [_ Ht]]].
+  - apply in_writes. eapply nth_error_In.
+    exact (proj1 (proj2 (proj2 (proj2 index_cmake_collides)))).
+  - destruct (visited_parent st_ex excl_none _ _ _ _ Hv) as [[_ E]|[r [c [nm [_ [_ [_ [_ E]]]]]]]].
+    + subst ch. vm_compute in Ht. discriminate Ht.
+    + destruct r; discriminate E.
+Qed.
+
+Example stdout_equals_pages_refuted :
+  ~ (forall base top,
+       prints (document (set_out st_ex false) hdrs_ex docfn_ok excl_none base (KDir top))
+       = pages_as_printed (document (set_out st_ex true) hdrs_ex docfn_ok excl_none base (KDir top))).
+Proof.
+  intros H. specialize (H (s"proj") top_index). apply (f_equal (@length _)) in H.
+  vm_compute in H. discriminate H.
+Qed.
+
+Example stdout_equals_pages_file_refuted :
+  ~ (forall base content,
+       prints (document (set_out st_ex false) hdrs_ex docfn_ok excl_none base (KFile content))
+       = pages_as_printed (document (set_out st_ex true) hdrs_ex docfn_ok excl_none base (KFile content))).
+Proof.
+  intros H. specialize (H (s"index.cmake") (s"I")). apply (f_equal (@length _)) in H.
+  vm_compute in H. discriminate H.
+Qed.
+
+(* (b) two page files with the same stem (possible on a case-sensitive file system:
+   is_cmake_name ignores case): both pages go to the same path *)
+Definition top_dupstem : list node := [F (s"a.cmake") (s"1"); F (s"a.CMAKE") (s"2")].
+Example same_stem_collides :
+  tree_ok top_dupstem = false
+  /\ writes (document st_ex hdrs_ex docfn_ok excl_none (s"proj") (KDir top_dupstem))
+     = [([s"index.rst"], index_of st_ex hdrs_ex excl_none (s"proj") [] top_dupstem);
+        ([s"a.rst"], s"proj.a.CMAKE|proj.a.CMAKE|2"); ([s"a.rst"], s"proj.a|proj.a.cmake|1")]
+  /\ ~ NoDup (write_paths (document st_ex hdrs_ex docfn_ok excl_none (s"proj") (KDir top_dupstem))).
+Proof.
+  split; [reflexivity|]. split; [vm_compute; reflexivity|].
+  apply (not_nodup_witness _ [s"a.rst"] 1 2); [lia|vm_compute; reflexivity|vm_compute; reflexivity].
+Qed.
+
+(* (c) two sibling directories with the same name (the model allows it, a file system does not) *)
+Definition top_dupdir : list node :=
+  [D (s"d") [F (s"x.cmake") (s"1")]; D (s"d") [F (s"y.cmake") (s"2")]].
+Example same_dir_name_collides :
+  tree_ok top_dupdir = false
+  /\ ~ NoDup (write_paths (document st_ex hdrs_ex docfn_ok excl_none (s"proj") (KDir top_dupdir))).
+Proof.
+  split; [reflexivity|].
+  apply (not_nodup_witness _ [s"d"; s"index.rst"] 0 2); [lia|vm_compute; reflexivity|vm_compute; reflexivity].
+Qed.
+
+(* (d) auto-exclusion and no .cmake file directly in the input directory: the sub-directories
+   are still walked but the top index.rst is not written, so nothing links to their pages.
+   all_written_reachable needs  dir_processed [] top = true. *)
+Definition top_nocmake : list node := [F (s"README") (s"R"); D (s"sub") [F (s"c.cmake") (s"C")]].
+Definition run_nocmake : list action :=
+  document st_ex hdrs_ex docfn_ok excl_none (s"proj") (KDir top_nocmake).
+
+Lemma reachable_needs_top : forall st hdrs excl prefix run p,
+  reachable st hdrs excl prefix run p -> In [index_rst] (write_paths run).
+Proof.
+  intros st hdrs excl prefix run p H. induction H as [text Hin|rel ch sub _ IH _ _|rel ch f _ IH _ _].
+  - apply in_write_paths. exists text. exact Hin.
+  - exact IH.
+  - exact IH.
+Qed.
+
+Example all_written_reachable_refuted :
+  tree_ok top_nocmake = true /\ dir_processed st_ex excl_none [] top_nocmake = false
+  /\ write_paths run_nocmake = [[s"sub"; s"index.rst"]; [s"sub"; s"c.rst"]]
+  /\ forall p, ~ reachable st_ex hdrs_ex excl_none (s"proj") run_nocmake p.
+Proof.
+  split; [reflexivity|]. split; [reflexivity|]. split; [vm_compute; reflexivity|].
+  intros p H. apply reachable_needs_top in H. vm_compute in H.
+  destruct H as [H|[H|[]]]; discriminate H.
+Qed.
+
+(* (e) W8 needs the excluded file to be a page file: an excluded a.txt next to a.cmake *)
+Definition excl_txt (rel : list str) (isdir : bool) : bool :=
+  negb isdir && str_eqb (last rel []) (s"a.txt").
+Definition top_w8 : list node := [F (s"a.txt") (s"T"); F (s"a.cmake") (s"A")].
+Example excluded_file_not_written_needs_cmake_name :
+  tree_ok top_w8 = true /\ excl_txt ([] ++ [s"a.txt"]) false = true
+  /\ In ([] ++ [rst_name (s"a.txt")])
+        (write_paths (document st_ex hdrs_ex docfn_ok excl_txt (s"proj") (KDir top_w8))).
+Proof. split; [reflexivity|]. split; [reflexivity|]. vm_compute. tauto. Qed.
+
+(* (f) stem of odd names: the page of ..cmake is ..rst, which is not the parent directory *)
+Example stem_odd_names :
+  rst_name (s"..cmake") = s"..rst" /\ rst_name (s".cmake") = s".rst" /\ rst_name (s"noext") = s".rst"
+  /\ name_ok (rst_name (s"..cmake")) = true.
+Proof. vm_compute. repeat split. Qed.
+
+(* (g) W6 needs names_ok: a file name containing a slash can produce the entry of a sub-directory *)
+Definition top_slash : list node :=
+  [F (s"d/index.rst.cmake") (s"1"); D (s"d") [F (s"x.cmake") (s"2")]].
+Example toctree_nodup_needs_names_ok :
+  tree_ok top_slash = true /\ names_ok top_slash = false
+  /\ toctree_entries st_ex excl_none [] top_slash = [s"d/index.rst"; s"d/index.rst"].
+Proof. vm_compute. repeat split. Qed.
+
+(* ==== MAIN THEOREMS ====
+   (this file)
+   W10  listing_order_irrelevant
+   W8   excluded_file_not_written
+   W6   toctree_nodup
+   W1b  write_paths_nodup
+   W13  stdout_equals_pages_dir, stdout_equals_pages_file
+   refuted: index_content_refuted, stdout_equals_pages_refuted, stdout_equals_pages_file_refuted,
+            all_written_reachable_refuted;
+   witnesses: index_cmake_collides, same_stem_collides, same_dir_name_collides,
+              excluded_file_not_written_needs_cmake_name
+   (WalkFacts.v)
+   W1 writes_exact, writes_exact_in   W2 page_content (write_cases)   W3 index_content
+   W4 keep_dir_processed, toctree_closed_dirs, toctree_closed_files
+   W5 toctree_complete, all_written_reachable   W7 excluded_input_no_output
+   W8 written_page_from_nonexcluded   W9 excluded_dir_not_descended
+   W11 no_output_dir_no_writes   W12 write_components_from_tree, writes_stay_below
+   W14 files_sorted_within_dir   W15 failed_file_aborts, failed_file_aborts_run, nothing_after_abort
+   sorting: str_leb_antisym, str_leb_total, str_leb_trans, sort_by_perm, sort_by_sorted,
+            sort_by_perm_eq;  cut_at_abort_id, cut_at_abort_spec *)
+Print Assumptions listing_order_irrelevant.
+Print Assumptions excluded_file_not_written.
+Print Assumptions toctree_nodup.
+Print Assumptions write_paths_nodup.
+Print Assumptions stdout_equals_pages_dir.
+Print Assumptions stdout_equals_pages_file.
+Print Assumptions index_content_refuted.
+Print Assumptions stdout_equals_pages_refuted.
+Print Assumptions stdout_equals_pages_file_refuted.
+Print Assumptions all_written_reachable_refuted.
+Print Assumptions index_cmake_collides.
+Print Assumptions same_stem_collides.
+Print Assumptions same_dir_name_collides.
+Print Assumptions listing_order_irrelevant_ex.
+Print Assumptions stdout_equals_pages_ex.
